@@ -212,8 +212,11 @@ def eda_obligations(chk, rid, rel, owner, label, nfa, prefix_accepts, exempt=Non
         for a, b, cell in f['divergences']:
             pairs.setdefault((a, b), (f['prefix'], cell))
     if not pairs:
-        chk.ob(rid, rel, owner, f'{label}: no exponential ambiguity before a match', True)
+        chk.ob(rid, rel, owner, f'{label}: no exponential ambiguity before a match', True,
+               'look-around assertions relaxed (superset of runs analysed)' if getattr(nfa, 'relaxed', False) else '')
         return 0
+    if getattr(nfa, 'relaxed', False):
+        raise AnalysisError(f'{label}: ambiguity found only after dropping a look-around assertion - cannot be decided')
     for (a, b), (prefix, cell) in sorted(pairs.items()):
         if exempt:
             chk.ob(rid, rel, owner, f'{label}: {a} || {b}', True, exempt, trivial=True)
